@@ -25,6 +25,8 @@ def both_views(seq):
 
 
 def fail(claim, witness=None, w=None):
+    if witness is None and w is not None:
+        witness = w
     return {"claim": claim, "witness": repr(witness)[:600] if not isinstance(witness, str) else witness[:600],
             "w": w if w is not None else _js(witness)}
 
